@@ -174,8 +174,25 @@ theorem isPrefixOf_doubleBackslashes : ∀ (p s : Str), '\\' ∉ p →
       simp [List.isPrefixOf, this]
     · simp only [hc, if_false, List.isPrefixOf, isPrefixOf_doubleBackslashes p s hp]
 
-theorem startsInclude_doubleBackslashes (s : Str) : startsInclude (doubleBackslashes s) = startsInclude s :=
-  isPrefixOf_doubleBackslashes _ s (by decide)
+theorem eq_hash_doubleBackslashes (s : Str) : (doubleBackslashes s == ['#']) = (s == ['#']) := by
+  cases s with
+  | nil => rfl
+  | cons c r =>
+    rw [doubleBackslashes_cons]
+    by_cases hc : c = '\\'
+    · subst hc
+      simp
+    · simp only [hc, if_false]
+      cases r with
+      | nil => simp [doubleBackslashes]
+      | cons d r' =>
+        have : doubleBackslashes (d :: r') ≠ [] := by
+          rw [doubleBackslashes_cons]; split <;> simp
+        simp [this]
+
+theorem startsInclude_doubleBackslashes (s : Str) : startsInclude (doubleBackslashes s) = startsInclude s := by
+  unfold startsInclude
+  rw [isPrefixOf_doubleBackslashes _ s (by decide), eq_hash_doubleBackslashes]
 
 /-! ##### `templateExpand` -/
 
